@@ -110,6 +110,15 @@ CallsOf(st, op) ==
     [] op \in {"enable_deferred", "enable_fast", "enable_vbu", "enable_ebu", "enable_fbu"} ->
           {KF(op, TRUE), KF(op, FALSE)}
     [] op = "clear" -> {KF(op, TRUE), KF(op, FALSE)}
+    [] op = "status_gc" ->   \* marks: every single entity, plus some pairs; manifold flag; track all / none
+          LET one(k, h) == IF k = "V" THEN <<1, h, 0, 0, 0>> ELSE IF k = "E" THEN <<0, 1, h, 0, 0>>
+                           ELSE IF k = "F" THEN <<0, 0, 1, h, 0>> ELSE <<0, 0, 0, 1, h>>
+              singles == {one("V", h) : h \in LiveV(st)} \cup {one("E", h) : h \in LiveE(st)}
+                         \cup {one("F", h) : h \in LiveF(st)} \cup {one("C", h) : h \in LiveC(st)}
+              pairs == {<<1, v, 0, 0, 1, c>> : <<v, c>> \in LiveV(st) \X LiveC(st)}
+                       \cup {<<0, 1, e, 1, f, 0>> : <<e, f>> \in {x \in LiveE(st) \X LiveF(st) : x[1] % 3 = 0}}
+              none == {<<0, 0, 0, 0>>}
+          IN {K(op, tr, 0, l, mf) : <<tr, l, mf>> \in {0, 1} \X (singles \cup pairs \cup none) \X BOOLEAN}
 
 Calls(st, ops) == UNION {CallsOf(st, op) : op \in ops}
 
